@@ -733,9 +733,9 @@ func init() {
 		Assume: []string{"google.golang.org/protobuf v1.26.0 as the standard implementation", "null.* and JSON-any fields, slices of slices and pointers to slices have no protobuf schema: they are checked by the walker and the model only"},
 		Plan: func(tier string) []core.Lane {
 			if tier == "thorough" {
-				return []core.Lane{{Lane: "plain", Cases: 60000, Shards: 16, TimeoutS: 3600}}
+				return []core.Lane{{Lane: "plain", Cases: 600000, Shards: 16, TimeoutS: 3600}}
 			}
-			return []core.Lane{{Lane: "plain", Cases: 2400, Shards: 16, TimeoutS: 1200}}
+			return []core.Lane{{Lane: "plain", Cases: 8000, Shards: 16, TimeoutS: 1200}}
 		},
 		Case: c12Case,
 	})
